@@ -445,8 +445,8 @@ func run(c *vf.Ctx) {
 	imp := fixture.New(fixtures, false)
 	states := map[string]struct{}{}
 	var counter int64
-	// quick: every history of length <= 5 over the reduced alphabet (19 operations);
-	// thorough: additionally every history of length <= 4 over the full alphabet (34 operations) that uses at
+	// quick: every history of length <= 5 over the reduced alphabet (21 operations);
+	// thorough: additionally every history of length <= 4 over the full alphabet (40 operations) that uses at
 	// least one operation outside the reduced set (the others are already covered).
 	explore(c, imp, alphabet(false), 5, nil, states, &counter)
 	if c.Thorough() {
